@@ -2,6 +2,7 @@
    What acceptance by Program::new (Build.build_program) guarantees, over the statement list.
    Proofs live in BuildProofs.v. *)
 From HclV Require Import Base Expr ExprSpec Machine Graph Build MachineSpec SchedSpec BuildSpec Generated BuildProofs CompleteSpec CompleteProofs.
+From HclV Require FaultDiagSpec FaultDiagProofs.
 Open Scope string_scope.
 Open Scope list_scope.
 Open Scope N_scope.
@@ -120,3 +121,81 @@ Print Assumptions C09_accepted_iff_fault_free.
    constants, memory and register file is fault free; for each clause a program violating it is
    rejected; the replay programs of the two repaired defects *)
 Check ex_pipeline_fault_free. Check ex_pipeline_accepted. Check f19_replays_rejected. Check f20_replay_accepted.
+
+(* ---- "rejected, WITH A DIAGNOSTIC NAMING THE WIRE" (FaultDiagSpec.v / FaultDiagProofs.v).
+   Program::new works in passes, each answering alone when it has something to report.  For every
+   fault the property lists: if the statement list has the fault on name n then the program is
+   rejected and the diagnostic of the corresponding kind names n - unconditionally for the faults of
+   the first pass, and otherwise unless an earlier pass answered (the alternative lists the kinds of
+   that pass).  All for the component table of the compiled code ------------------------------ *)
+Section C09_diagnosed.
+  Variable f : features.
+  Variable is_lower : string -> bool.
+  Variable is_upper : string -> bool.
+  Notation S name := (name f gen_fixed is_lower is_upper).
+
+  (* first pass: declared twice, redeclaring a built-in wire, assigned twice, assigning a built-in
+     output or a constant, a constant reading a wire / an undeclared name - all reported together *)
+  Theorem C09_first_pass_faults_are_diagnosed :
+    S FaultDiagSpec.stmt_redeclared_reported /\ S FaultDiagSpec.stmt_redeclared_builtin_reported /\
+    S FaultDiagSpec.stmt_double_assigned_reported /\ S FaultDiagSpec.stmt_assigned_builtin_output_reported /\
+    S FaultDiagSpec.stmt_assigned_constant_reported /\ S FaultDiagSpec.stmt_const_reads_wire_reported /\
+    S FaultDiagSpec.stmt_const_reads_undeclared_reported /\ S FaultDiagSpec.stmt_decl_faults_together /\
+    S FaultDiagSpec.stmt_decl_diags_are_real.
+  Proof.
+    split; [apply FaultDiagProofs.redeclared_reported_holds |].
+    split; [apply FaultDiagProofs.redeclared_builtin_reported_holds |].
+    split; [apply FaultDiagProofs.double_assigned_reported_holds |].
+    split; [apply FaultDiagProofs.assigned_builtin_output_reported_holds |].
+    split; [apply FaultDiagProofs.assigned_constant_reported_holds |].
+    split; [apply FaultDiagProofs.const_reads_wire_reported_holds |].
+    split; [apply FaultDiagProofs.const_reads_undeclared_reported_holds |].
+    split; [apply FaultDiagProofs.decl_faults_together_holds |].
+    apply FaultDiagProofs.decl_diags_are_real_holds.
+  Qed.
+
+  (* register banks and missing assignments: bad bank name, assigned register output, initial
+     value reading a wire, bank signal declared as a wire, declared wire / register input never
+     assigned *)
+  Theorem C09_bank_and_unset_faults_are_diagnosed :
+    S FaultDiagSpec.stmt_bank_name_reported /\ S FaultDiagSpec.stmt_assigned_register_output_reported /\
+    S FaultDiagSpec.stmt_init_reads_wire_reported /\ S FaultDiagSpec.stmt_register_signal_declared_reported /\
+    S FaultDiagSpec.stmt_control_signal_declared_reported /\ S FaultDiagSpec.stmt_unset_wire_reported /\
+    S FaultDiagSpec.stmt_unset_register_input_reported /\ S FaultDiagSpec.stmt_bank_pass_together.
+  Proof.
+    split; [apply FaultDiagProofs.bank_name_reported_holds |].
+    split; [apply FaultDiagProofs.assigned_register_output_reported_holds |].
+    split; [apply FaultDiagProofs.init_reads_wire_reported_holds |].
+    split; [apply FaultDiagProofs.register_signal_declared_reported_holds |].
+    split; [apply FaultDiagProofs.control_signal_declared_reported_holds |].
+    split; [apply FaultDiagProofs.unset_wire_reported_holds |].
+    split; [apply FaultDiagProofs.unset_register_input_reported_holds |].
+    apply FaultDiagProofs.bank_pass_together_holds.
+  Qed.
+
+  (* built-in components and the scheduler: mandatory input missing, component given some but not
+     all inputs (unless switched off by a constant 0), needed output whose inputs are missing, name
+     assigned / read without being declared *)
+  Theorem C09_component_and_undeclared_faults_are_diagnosed :
+    S FaultDiagSpec.stmt_mandatory_input_reported /\ S FaultDiagSpec.stmt_partial_component_reported /\
+    FaultDiagSpec.stmt_needed_output_reported_gen /\ FaultDiagSpec.stmt_undeclared_assigned_reported_gen /\
+    FaultDiagSpec.stmt_undriven_read_reported_gen /\ S FaultDiagSpec.stmt_component_pass_together /\
+    S FaultDiagSpec.stmt_schedule_pass_together.
+  Proof.
+    split; [apply FaultDiagProofs.mandatory_input_reported_holds |].
+    split; [apply FaultDiagProofs.partial_component_reported_holds |].
+    split; [apply FaultDiagProofs.needed_output_reported_gen_holds |].
+    split; [apply FaultDiagProofs.undeclared_assigned_reported_gen_holds |].
+    split; [apply FaultDiagProofs.undriven_read_reported_gen_holds |].
+    split; [apply FaultDiagProofs.component_pass_together_holds |].
+    apply FaultDiagProofs.schedule_pass_together_holds.
+  Qed.
+
+  (* every rejection is the answer of exactly one pass (kinds of one pass only, or one loop) *)
+  Theorem C09_rejection_is_one_pass_answer : S FaultDiagSpec.stmt_rejection_classified.
+  Proof. apply FaultDiagProofs.rejection_classified_holds. Qed.
+End C09_diagnosed.
+Print Assumptions C09_first_pass_faults_are_diagnosed.
+Print Assumptions C09_bank_and_unset_faults_are_diagnosed.
+Print Assumptions C09_component_and_undeclared_faults_are_diagnosed.
+Print Assumptions C09_rejection_is_one_pass_answer.
